@@ -37,22 +37,13 @@ func c06Groups(tier string, seed int64, idx int, scratch string) rt.CaseResult {
 	n := 2 + rng.Intn(7)
 	level := idx / 4 % 4
 	env, err := dbx.Open(dbx.Options{Mode: dbx.Inline, Dir: filepath.Join(scratch, "db"), MaxDirCount: 100, MaxDirExplicit: true,
-		GCPeriod: time.Hour, NumWorkers: 2, SendDuration: 1})
+		Roots: 1 + (idx/4)%3, GCPeriod: time.Hour, NumWorkers: 2, SendDuration: 1})
 	if err != nil {
 		c.Violate("open-failed", err.Error(), nil)
 		return c
 	}
 	release := make(chan struct{})
 	var parked int64
-	verif.SetHandler(func(point, id string) {
-		if point == "cleaner.deletefile.begin" {
-			atomic.AddInt64(&parked, 1)
-			select {
-			case <-release:
-			case <-time.After(20 * time.Second):
-			}
-		}
-	})
 	released := false
 	unpark := func() {
 		if !released {
@@ -78,11 +69,47 @@ func c06Groups(tier string, seed int64, idx int, scratch string) rt.CaseResult {
 			}
 		}(w)
 	}
+	// a fifth client writes and deletes keys of its own and runs the collector, so that
+	// directories are re-activated (files removed) while others fill up and are replaced
+	if pads > 0 {
+		wg.Add(1)
+		go func() {
+			defer wg.Done()
+			for i := 0; i < pads/2; i++ {
+				k := fmt.Sprintf("churn%03d", i)
+				if err := env.DB.Set(ctxBg, k, []byte{1}); err != nil {
+					padErr.Store(err)
+				}
+				if err := env.DB.Delete(ctxBg, k); err != nil {
+					padErr.Store(err)
+				}
+				if i%16 == 15 {
+					if err := env.Collect(); err != nil {
+						padErr.Store(err)
+					}
+				}
+			}
+		}()
+	}
 	wg.Wait()
 	if e := padErr.Load(); e != nil {
-		c.Violate("unexpected-error op=set", fmt.Sprintf("a concurrent Set of a padding key failed: %v", e), replay)
+		c.Violate("unexpected-error op=set", fmt.Sprintf("a concurrent Set/Delete/collector call of the set-up phase failed: %v", e), replay)
 		return c
 	}
+	// from here on the cleaner is parked at its first hook (see above)
+	if err := env.Drain(); err != nil {
+		c.Violate("drain-failed", err.Error(), replay)
+		return c
+	}
+	verif.SetHandler(func(point, id string) {
+		if point == "cleaner.deletefile.begin" {
+			atomic.AddInt64(&parked, 1)
+			select {
+			case <-release:
+			case <-time.After(20 * time.Second):
+			}
+		}
+	})
 	group := func(g string) []string {
 		var ks []string
 		for i := 0; i < n; i++ {
